@@ -37,6 +37,27 @@ CONSTANTS FontLen,          \* bytes of the embedded font (4096 = 256 glyphs x 1
 Ints(n) == [i \in 1..n |-> i] \o <<>>
 Fail(why) == [ok |-> FALSE, why |-> why, w |-> 0, h |-> 0, rows |-> <<>>, pal |-> <<>>, font |-> <<>>]
 
+\* ------------------------------------------------------------------ SAUCE (rev. 5) as far as these formats need it
+\* ... content 1A ["COMNT" n*64] "SAUCE" "00" title[35] author[20] group[20] date[8] filesize:u32 datatype filetype
+\*     tinfo1..4:u16 comments flags tinfos[22]      (128 bytes; field offsets below are 0-based within the record)
+SauceTag == <<83, 65, 85, 67, 69>>
+HasSauce(b) == Len(b) >= 128 /\ SubSeq(b, Len(b) - 127, Len(b) - 123) = SauceTag
+SauceByte(b, off) == b[Len(b) - 127 + off]
+SauceDataType(b) == SauceByte(b, 94)             \* 1 character, 5 binary text, 6 XBin
+SauceFileType(b) == SauceByte(b, 95)             \* binary text: width / 2
+SauceTInfo1(b) == SauceByte(b, 96) + 256 * SauceByte(b, 97)
+SauceFlags(b) == SauceByte(b, 105)               \* bit 0: non-blink (iCE colours)
+SauceBlockLen(b) == 128 + (IF SauceByte(b, 104) > 0 THEN 5 + 64 * SauceByte(b, 104) ELSE 0)
+\* the file content without the SAUCE block and the EOF character in front of it
+Content(b) ==
+  IF ~HasSauce(b) \/ SauceBlockLen(b) > Len(b) THEN b
+  ELSE IF Len(b) > SauceBlockLen(b) /\ b[Len(b) - SauceBlockLen(b)] = 26 THEN SubSeq(b, 1, Len(b) - SauceBlockLen(b) - 1)
+  ELSE SubSeq(b, 1, Len(b) - SauceBlockLen(b))
+BinWidth(b) == IF HasSauce(b) /\ SauceDataType(b) = 5 /\ SauceFileType(b) > 0 THEN 2 * SauceFileType(b) ELSE 160
+Dos16 == << <<0,0,0>>, <<0,0,170>>, <<0,170,0>>, <<0,170,170>>, <<170,0,0>>, <<170,0,170>>, <<170,85,0>>, <<170,170,170>>,
+            <<85,85,85>>, <<85,85,255>>, <<85,255,85>>, <<85,255,255>>, <<255,85,85>>, <<255,85,255>>, <<255,255,85>>, <<255,255,255>> >>
+Expand6(v) == ((v * 4) % 256) + (v \div 16)          \* 6-bit DAC value -> 8 bit (v<<2 | v>>4)
+
 \* ------------------------------------------------------------------ BIN
 \* complete rows only: a trailing partial row / odd byte is not part of the picture
 PairRows(b, o, w, h) == [y \in 1..h |-> [x \in 1..w |-> <<b[o + 2 * (w * (y - 1) + x - 1)], b[o + 2 * (w * (y - 1) + x - 1) + 1]>>] \o <<>>] \o <<>>
